@@ -520,7 +520,11 @@ def clean_decision_table(ctx: Ctx, rule: str, all_owners: bool = False) -> None:
     cmp_f = [n for n in ast.walk(rl) if isinstance(n, ast.Compare) and isinstance(n.comparators[0], ast.Constant)
              and n.comparators[0].value == "f" and isinstance(n.left, ast.Subscript)
              and isinstance(n.left.slice, ast.Constant) and n.left.slice.value == 0 and isinstance(n.ops[0], ast.Eq)]
-    has_else_false = any(isinstance(s, ast.Assign) and isinstance(s.value, ast.Constant) and s.value.value is False for s in rl.orelse)
+    def _false_init(stmts):
+        return any(isinstance(s, ast.Assign) and ast.unparse(s.targets[0]) == "is_reversible" and isinstance(s.value, ast.Constant) and s.value.value is False for s in stmts)
+
+    # "no object is reversible -> False": the for/else form, or the flag initialised before the loop
+    has_else_false = _false_init(rl.orelse) or _false_init(fn.node.body[:fn.node.body.index(rl)])
     has_break = any(isinstance(n, ast.Break) for n in ast.walk(rl))
     exact = sorted(ast.unparse(c.left) for c in cmp_f) == sorted([
         "object_params.get('unset_mode_images', object_params['unset_mode'])[0]",
